@@ -155,8 +155,8 @@ theorem lag_complete (d : Dir) (d2 : Q) (k : Nat) (hup : d2 < Vario.sq (((k : Q)
 
 /-! non-vacuity: three collinear samples -/
 def s3 : List Sample := [⟨[0], [some 1], none, true⟩, ⟨[1], [some 3], none, true⟩, ⟨[2], [some 2], none, true⟩]
-def d1 : Dir := ⟨[1], 0, none, none, 3, 1, 1/2, false, []⟩
-def d1o : Dir := ⟨[1], 0, none, none, 3, 1, 1/2, true, []⟩
+def d1 : Dir := ⟨[1], 0, none, none, 3, 1, 1/2, false, [], 0⟩
+def d1o : Dir := ⟨[1], 0, none, none, 3, 1, 1/2, true, [], 0⟩
 example : SortedX s3 := by simp [SortedX, s3]
 example : (lagDef d1 0 0 1 s3).1 = 2 ∧ (lagDef d1 0 0 1 s3).2.1 = some (5/4) := by decide +kernel
 /-- order-4 variogram of the same data: ½(2⁴ + 1⁴)/2 = 17/4 -/
@@ -255,7 +255,7 @@ theorem lag_breaks_outside (d : Dir) (d2 : Q) (hirr : 2 ≤ d.breaks.length)
   | some k => exact absurd (lag_breaks_sound d d2 k hirr h).1 (hout k)
 
 /-- non-vacuity: classes ]1,2], ]2,3.5]; distances 0.5 (none), 1.5 (class 0), 3 (class 1) -/
-def db : Dir := ⟨[1], 0, none, none, 2, 1, 1/2, false, [1, 2, 7/2]⟩
+def db : Dir := ⟨[1], 0, none, none, 2, 1, 1/2, false, [1, 2, 7/2], 0⟩
 example : lagRank db (1/4) = none ∧ lagRank db (9/4) = some 0 ∧ lagRank db 9 = some 1 ∧ lagRank db 16 = none := by
   decide +kernel
 
